@@ -2,6 +2,7 @@
 import json
 from tools import vlib
 from tools import cluster
+from tools import daemon
 
 
 def run(ctx):
@@ -27,6 +28,9 @@ def run(ctx):
                    {h: [x["up"], x["ro"], x["src"]] for h, x in row["hosts"].items()}, row["acked"][-2:], row["ackviol"], row["scn"]))
         v.fail(name, sig, what, {"scenario": sc, "row": cluster.compact_final(row),
                                  "how": "VERIF_ONLY='%s' VERIF_FULL=1 go test -run TestVerifC02 ./internal/app (overlay)" % row["scn"]})
+    # conformance of the mode machine (Daemon.tla) on these fault-heavy runs: islands, coordination loss, process kills
+    # and restarts (drift is counted; the clauses that belong to listed properties are reported by C03 / C09)
+    modes = daemon.mode_rows(ctx, v, [x for x in rows if x["kind"] == "mode"], meta["scenarios"], "-")
     finals = [x for x in rows if x["kind"] == "final"]
     moved = sum(1 for x in finals if x["tree"]["master"] != "h1")
     kinds = {}
@@ -35,6 +39,7 @@ def run(ctx):
         k = p[7].split("@")[0] if len(p) > 7 else "?"
         kinds[k] = kinds.get(k, 0) + 1
     cov = {
+        "mode_machine_rows": modes,
         "states": mc["distinct"], "transitions": mc["generated"],
         "traces_validated_against_impl": len(finals),
         "evaluations": meta["runs"], "distinct_nontrivial": len({x["scn"] for x in finals}),
